@@ -30,11 +30,15 @@ class _Str(Ty):
     pass
 
 
+class _Real(Ty):
+    pass
+
+
 class _NoneT(Ty):
     pass
 
 
-Int, Bool, Str, NoneT = _Int(), _Bool(), _Str(), _NoneT()
+Int, Bool, Str, NoneT, Real = _Int(), _Bool(), _Str(), _NoneT(), _Real()
 
 
 class Opt(Ty):
@@ -137,6 +141,8 @@ def flat_sorts(t: Ty) -> list:
         return [z3.IntSort()]
     if isinstance(t, _Bool):
         return [z3.BoolSort()]
+    if isinstance(t, _Real):
+        return [z3.RealSort()]
     if isinstance(t, _Str):
         return [z3.StringSort()]
     if isinstance(t, _NoneT):
@@ -198,6 +204,16 @@ class VBool(V):
 
     def __repr__(self):
         return f"VBool({self.term})"
+
+
+class VReal(V):
+    """python float treated as a mathematical real (no rounding, no NaN/inf)"""
+
+    def __init__(self, term):
+        self.term = z3.RealVal(term) if isinstance(term, (int, float)) else term
+
+    def __repr__(self):
+        return f"VReal({self.term})"
 
 
 class VStr(V):
@@ -343,6 +359,11 @@ def pack(v: V, t: Ty) -> list:
     if isinstance(t, _Str):
         assert isinstance(v, VStr), (v, t)
         return [v.term]
+    if isinstance(t, _Real):
+        if isinstance(v, VInt):
+            return [z3.ToReal(v.term)]
+        assert isinstance(v, VReal), (v, t)
+        return [v.term]
     if isinstance(t, _NoneT):
         return []
     if isinstance(t, Ref):
@@ -398,6 +419,8 @@ def default_term(sort):
         return z3.BoolVal(False)
     if sort == z3.StringSort():
         return z3.StringVal("")
+    if sort == z3.RealSort():
+        return z3.RealVal(0)
     return z3.FreshConst(sort, "dflt")
 
 
@@ -417,6 +440,8 @@ def _unpack(t: Ty, terms: list):
         return VBool(terms[0]), terms[1:]
     if isinstance(t, _Str):
         return VStr(terms[0]), terms[1:]
+    if isinstance(t, _Real):
+        return VReal(terms[0]), terms[1:]
     if isinstance(t, _NoneT):
         return NONE, terms
     if isinstance(t, Ref):
